@@ -492,7 +492,77 @@ def sweeps(tier, rng):
             except Exception as e:
                 bad = "T2CharStringPen raised %r" % (e,)
             yield (("t2pen", icalls), bad)
-    return [Sweep("pen-adapters", run_adapters), Sweep("superbezier", run_superbezier), Sweep("glyph-builders", run_glyph_builders)]
+    def run_components():
+        """composite glyphs decomposed through both protocols, with and without reverseFlipped, nested: the result is the base outline
+        under the (accumulated) matrix; its signed area is det * area(base), or |det| * area(base) when flipped components are re-reversed"""
+        from fontTools.pens.recordingPen import DecomposingRecordingPen, DecomposingRecordingPointPen, RecordingPointPen
+        from fontTools.pens.areaPen import AreaPen
+        from fontTools.pens.transformPen import TransformPen
+        from fontTools.misc.transform import Transform
+        import math as _m
+        class Simple:
+            def __init__(s, calls): s.calls = calls
+            def draw(s, pen): _record(s.calls, pen)
+            def drawPoints(s, pen): _record(s.calls, SegmentToPointPen(pen, guessSmooth=False))
+        class Comp:
+            def __init__(s, comps): s.comps = comps
+            def draw(s, pen):
+                for nm, t in s.comps: pen.addComponent(nm, t)
+            def drawPoints(s, pen):
+                for nm, t in s.comps: pen.addComponent(nm, t)
+        def rand_t():
+            k = rng.below(8)
+            if k == 0: return (1, 0, 0, 1, rng.randint(-50, 50), rng.randint(-50, 50))
+            if k == 1: return (-1, 0, 0, 1, rng.randint(-50, 50), 0)                         # mirror
+            if k == 2: return (0, 1, 1, 0, 0, 0)                                              # swap axes (a flip with a*d = 0)
+            if k == 3: return (0, -1, 1, 0, 5, 5)                                             # quarter turn (not a flip, a*d = 0)
+            if k == 4: return (0, 1, -1, 0, 0, 0)
+            if k == 5: return (0.5, 2, 1.5, 0.25, 0, 0)                                       # |b*c| > |a*d|, determinant negative
+            if k == 6: return (0.5, -2, 1.5, 0.25, 0, 0)                                      # |b*c| > |a*d|, determinant positive
+            return tuple(rng.choice([-2, -1, -0.5, 0.25, 0.5, 1, 2]) for _ in range(4)) + (rng.randint(-20, 20), rng.randint(-20, 20))
+        def area_of(calls):
+            ap = AreaPen(); _record(calls, ap); return ap.value
+        for i in range(n):
+            base = []
+            for _c in range(rng.randint(1, 2)):
+                c = [x for x in gen_contour(rng, allow_super=False)]
+                if c[0][0] != "moveTo" or len(c) < 3: continue
+                if c[-1][0] == "endPath": c[-1] = ("closePath", ())
+                base += [(op, tuple((float(p[0]), float(p[1])) for p in a)) for op, a in c]
+            if not base: continue
+            t1 = rand_t(); t2 = rand_t(); nested = rng.chance(40)
+            gs = {"base": Simple(base), "mid": Comp([("base", t2)]), "top": Comp([("mid", t1)] if nested else [("base", t1)])}
+            total = Transform(*t1).transform(Transform(*t2)) if nested else Transform(*t1)
+            det = total[0] * total[3] - total[1] * total[2]
+            a0 = area_of(base)
+            exp = RecordingPen(); _record(base, TransformPen(exp, total))
+            bad = None
+            for proto in ("segment", "point"):
+                for rf in (False, True):
+                    try:
+                        if proto == "segment":
+                            pen = DecomposingRecordingPen(gs, reverseFlipped=rf); gs["top"].draw(pen); got = pen.value
+                        else:
+                            pp = DecomposingRecordingPointPen(gs, reverseFlipped=rf); gs["top"].drawPoints(pp)
+                            r_ = RecordingPen(); pp.replay(PointToSegmentPen(r_)); got = r_.value
+                        if any(op == "addComponent" for op, _ in got): bad = "%s decomposition left a component" % proto; break
+                        a1 = area_of(got)
+                        # nested reverseFlipped: each level re-reverses on its own matrix; the product of the signs is the sign of the total determinant
+                        want = (abs(det) if rf else det) * a0
+                        if rf and nested:
+                            d1 = t1[0] * t1[3] - t1[1] * t1[2]; d2 = t2[0] * t2[3] - t2[1] * t2[2]
+                            want = abs(d1) * abs(d2) * a0
+                        if abs(a1 - want) > 1e-6 * (1 + abs(want)):
+                            bad = "%s decomposition (reverseFlipped=%r, nested=%r) of matrix %r / %r has signed area %.6g, expected %.6g (base %.6g)" % (proto, rf, nested, t1, t2, a1, want, a0); break
+                        # same point set as the transformed base, whatever the direction
+                        pts_got = sorted((round(p[0], 6), round(p[1], 6)) for op, a in got for p in a if p is not None)
+                        pts_exp = sorted((round(p[0], 6), round(p[1], 6)) for op, a in exp.value for p in a if p is not None)
+                        if len(set(pts_exp) - set(pts_got)) > 0: bad = "%s decomposition lost points of the transformed base" % proto; break
+                    except Exception as e:
+                        bad = "%s decomposition raised %r" % (proto, e); break
+                if bad: break
+            yield (("components", t1, t2, nested), bad)
+    return [Sweep("pen-adapters", run_adapters), Sweep("superbezier", run_superbezier), Sweep("glyph-builders", run_glyph_builders), Sweep("components", run_components)]
 
 class _Flat(BasePen):
     """every contour as a list of elementary segments (super-beziers and quadratic splines decomposed by BasePen)"""
